@@ -1,7 +1,7 @@
 (* C08: missed occurrences are caught up one per call, or collapsed with skip_missing.
    Only statements closed by [exact]; proofs are in Proofs/. *)
 From Coq Require Import ZArith List Bool.
-From Sv Require Import PyTime Timer Job Sched Occur TimerProofs JobProofs CyclicProofs.
+From Sv Require Import PyTime Timer Job Sched Occur TimerProofs JobProofs CyclicProofs BatchProofs SkipProofs.
 From Coq Require Import Lia.
 Import ListNotations.
 Open Scope Z_scope.
@@ -89,6 +89,48 @@ Theorem C08_job_calc_total : forall j ref,
                                       end).
 Proof. exact job_calc_ok. Qed.
 
+(* Job level, single AND batched clock-time jobs with skip_missing: after an execution at instant r (whatever
+   the backlog) the new due time is an occurrence of one of the job's entries, never earlier than r, strictly
+   later than the due time consumed, and NO entry has an occurrence strictly between r and it.  The invariant
+   [skip_inv] (every timer is the next occurrence of its entry after some instant <= the last execution)
+   holds for a freshly scheduled job and travels through every execution. *)
+Theorem C08_skip_job : forall L j b r,
+  skip_inv L j -> aware r = tz_aware (j_tz j) -> L <= utc r ->
+  let ty := c_type (j_cfg j) in
+  exists j', job_cycle j (b, r) = Ok j' /\ skip_inv (utc r) j' /\
+             j_cfg j' = j_cfg j /\ j_tz j' = j_tz j /\ j_attempts j' = j_attempts j + 1 /\
+             utc r <= utc (job_datetime j') /\
+             (utc (job_datetime j) <= utc r -> utc (job_datetime j) < utc (job_datetime j')) /\
+             union_occ ty (c_timing (j_cfg j)) (utc (job_datetime j')) /\
+             (forall tg y, In tg (c_timing (j_cfg j)) -> utc r < y -> y < utc (job_datetime j') -> ~ occ ty tg y).
+Proof. exact skip_cycle. Qed.
+Theorem C08_skip_created : forall c tz now j,
+  cfg_valid c -> job_create c tz now = Ok j -> c_type c <> CYCLIC -> c_skip c = true -> c_delay c = true ->
+  skip_inv (utc (match c_start c with Some s => s | None => dt_now now tz end)) j.
+Proof. exact created_skip. Qed.
+(* any history of executions at non-decreasing instants (the scheduler's clock) *)
+Theorem C08_skip_history : forall runs L j,
+  skip_inv L j -> Forall (fun r => aware (snd r) = tz_aware (j_tz j)) runs -> nondecreasing L runs ->
+  exists j', job_cycles j runs = Ok j' /\ skip_inv (last_instant L runs) j' /\
+             j_cfg j' = j_cfg j /\ j_tz j' = j_tz j /\ j_attempts j' = j_attempts j + Z.of_nat (length runs) /\
+             (runs <> [] -> last_instant L runs <= utc (job_datetime j')).
+Proof. exact skip_cycles. Qed.
+(* non-vacuity: a daily job with two entries (08:00, 20:00), skip_missing, satisfies the invariant *)
+Example C08_skip_batched_example :
+  let c := mkCfg DAILY [TTime (mkTime 8 0 0 0 None); TTime (mkTime 20 0 0 0 None)] 0 [] true None None true 1 1 [] [] [] in
+  exists j, job_create c None 63871324200000000 = Ok j /\ skip_inv 63871324200000000 j.
+Proof.
+  cbv zeta. eexists. split; [vm_compute; reflexivity|].
+  match goal with |- skip_inv _ ?j =>
+    apply (created_skip (mkCfg DAILY [TTime (mkTime 8 0 0 0 None); TTime (mkTime 20 0 0 0 None)] 0 [] true None None true 1 1 [] [] [])
+                        None 63871324200000000 j) end.
+  - repeat constructor; cbn; unfold valid_time; cbn; lia.
+  - vm_compute; reflexivity.
+  - discriminate.
+  - reflexivity.
+  - reflexivity.
+Qed.
+
 (* non-vacuity: hourly job xx:30, skip_missing, polled 5 h 10 min after its first due instant *)
 Example C08_example :
   let t := mkTime 0 30 0 0 None in
@@ -103,4 +145,7 @@ Print Assumptions C08_skip_clock.
 Print Assumptions C08_skip_cyclic.
 Print Assumptions C08_job_calc_total.
 Print Assumptions C08_skip_cyclic_job_partial.
+Print Assumptions C08_skip_job.
+Print Assumptions C08_skip_created.
+Print Assumptions C08_skip_history.
 Print Assumptions C08_skip_cyclic_nodelay_refuted.
